@@ -413,6 +413,96 @@ fn bytes<C: GenericConfig<D, F = F>>(c: &ByteCase, known: &[String], st: &mut St
     Ok(())
 }
 
+// ------------------------------------------------------------------------------------------
+// length fields of valid encodings, decoded in a child process (an attempted huge allocation
+// aborts the process, which cannot be caught in-process)
+// ------------------------------------------------------------------------------------------
+
+#[derive(Clone, Debug, Serialize, Deserialize)]
+pub struct ProbeJob {
+    pub circuit: RawCircuit,
+    pub bytes: Vec<u8>,
+}
+
+/// Child-process entry (`pv __c18_decode <file>`): exit 0 = decoder returned (Ok or Err),
+/// 3 = decoder panicked, 4 = decoder attempted an allocation above the bound; an abort shows up
+/// as a signal / other status in the parent.
+pub fn decode_probe_main(file: &str) -> i32 {
+    let job: ProbeJob = serde_json::from_slice(&std::fs::read(file).expect("probe file")).expect("probe json");
+    fn go<C: GenericConfig<D, F = F>>(job: &ProbeJob) -> i32 {
+        let built = crate::circuit::build_case::<C>(&job.circuit, &DslOpts::default(), &limits());
+        let budget = 64 * job.bytes.len() + (1 << 20);
+        alloc_probe::start();
+        let r = catch(|| ProofWithPublicInputs::<F, C, D>::from_bytes(job.bytes.clone(), &built.data.common));
+        let peak = alloc_probe::stop();
+        match r {
+            Err(_) => 3,
+            Ok(_) if peak > budget => 4,
+            Ok(_) => 0,
+        }
+    }
+    if job.circuit.config.keccak {
+        go::<crate::circuit::KC>(&job)
+    } else {
+        go::<crate::circuit::PC>(&job)
+    }
+}
+
+fn length_fields<C: GenericConfig<D, F = F>>(c: &ByteCase, st: &mut Stats) -> Result<(), String> {
+    let opts = DslOpts::default();
+    let pr = prove_case::<C>(&c.circuit, &opts, &limits(), st)?;
+    let orig = pr.proof.to_bytes();
+    let n_pis = pr.proof.public_inputs.len();
+    // layout (documented by the encoder): ... proof ..., u64 count of public inputs, then the public inputs
+    let at = orig.len() - 8 * n_pis - 8;
+    let stored = u64::from_le_bytes(orig[at..at + 8].try_into().unwrap());
+    if stored != n_pis as u64 {
+        return Err(format!("harness assumption about the encoding layout is wrong: count field holds {} not {}", stored, n_pis));
+    }
+    let dir = crate::engine::verif_root().join("target").join("c18-probe");
+    let _ = std::fs::create_dir_all(&dir);
+    let exe = std::env::current_exe().map_err(|e| e.to_string())?;
+    let values: Vec<u64> = vec![n_pis as u64 + 1, 1 << 20, 1 << 31, 1 << 36, 1 << 44, 1 << 60, (1 << 60) + 3, u64::MAX];
+    for (i, v) in values.iter().enumerate() {
+        let mut b = orig.clone();
+        b[at..at + 8].copy_from_slice(&v.to_le_bytes());
+        // also truncate after the count in half of the cases (count says more than there is)
+        if i % 2 == 1 {
+            b.truncate(at + 8);
+        }
+        let job = ProbeJob {
+            circuit: c.circuit.clone(),
+            bytes: b,
+        };
+        let file = dir.join(format!("job-{:016x}-{}.json", hash_of(&c.circuit), i));
+        std::fs::write(&file, serde_json::to_vec(&job).unwrap()).map_err(|e| e.to_string())?;
+        let out = std::process::Command::new("sh")
+            .arg("-c")
+            .arg("ulimit -v 8388608; exec \"$0\" __c18_decode \"$1\"")
+            .arg(&exe)
+            .arg(&file)
+            .stdout(std::process::Stdio::null())
+            .stderr(std::process::Stdio::null())
+            .status()
+            .map_err(|e| format!("cannot spawn the decode probe: {}", e))?;
+        let _ = std::fs::remove_file(&file);
+        st.evals(1);
+        st.label("bytes:public_input_count_field");
+        st.nontrivial(&(hash_of(&c.circuit), "pi_count", *v));
+        match out.code() {
+            Some(0) => {}
+            Some(3) => return Err(format!("decoder PANICKED when the public-input count field says {}", v)),
+            Some(4) => return Err(format!("decoder attempted an allocation proportional to the public-input count field {} of a {} byte input", v, orig.len())),
+            other => return Err(format!("decoder process died ({:?}) when the public-input count field says {} (abort / failed allocation)", other, v)),
+        }
+    }
+    Ok(())
+}
+
+fn prop_length_fields(c: &ByteCase, st: &mut Stats) -> Result<(), String> {
+    with_config!(c.circuit.config.keccak, length_fields, c, st)
+}
+
 fn strip_indices(v: &mut Value) {
     if let Some(q) = v.pointer_mut("/proof/opening_proof/query_round_proofs") {
         if let Value::Object(m) = q {
@@ -610,6 +700,8 @@ pub fn run(ctx: &mut Ctx) {
     let k = known.clone();
     let nb_muts_c = ctx.tier.pick(200, 1500);
     ctx.run_sub("compressed_bytes", nb_cases, 14, move || byte_case(max_ops, nb_muts_c, true), move |c, st| prop_bytes(c, &k, st));
+    let nl = ctx.tier.pick(28, 400);
+    ctx.run_sub("length_fields", nl, 14, move || byte_case(max_ops, 1, false), prop_length_fields);
     let k = known.clone();
     let (ns, nse) = ctx.tier.pick((140, 160), (3000, 400));
     ctx.run_sub("stark_values", ns, 14, move || stark_case(nse, thorough), move |c, st| prop_stark(c, &k, st));
